@@ -72,7 +72,6 @@ def _same(a, b):
 
 class SV:
     __slots__ = ("k", "l", "p")
-    __array_priority__ = 10000
 
     def __init__(self, k, l=None, p=None):
         self.k, self.l, self.p = k, l, p
